@@ -6,7 +6,9 @@
 (* A scenario is a sequence of steps                                       *)
 (*   [kw ("given"|"when"|"then"), kind, a, b, n]                           *)
 (* kinds of given/when steps: "send" (event a, parameter v=b; b=0 none),   *)
-(*   "wait" (a seconds), "nothing", "repeat" (n times: send event a)       *)
+(*   "wait" (a seconds), "nothing", "repeat" (n times: send event a),      *)
+(*   "reproduce" (the given/when steps of the library scenario Lib, run     *)
+(*   with the current keyword)                                             *)
 (* kinds of then steps: "entered" "not_entered" "exited" "not_exited"      *)
 (*   "active" "not_active" (state a), "fired" (event a [with v=b])         *)
 (*   "not_fired" (event a), "no_event", "var_eq" "var_neq" (x vs a),       *)
@@ -41,7 +43,7 @@ RECURSIVE Sends(_, _, _, _)
 Sends(S, ev, par, n) == IF n = 0 THEN S ELSE Sends(QueueExternal(S, ev, par, 0), ev, par, n - 1)
 
 (* a given/when step: the action, then the after_step hook (execute; when: monitored) *)
-ActStep(c, B, st) ==
+ActStep1(c, B, st) ==
   LET S1 == CASE st.kind = "send" -> QueueExternal(B.S, st.a, st.b, 0)
               [] st.kind = "repeat" -> Sends(B.S, st.a, 0, st.n)
               [] OTHER -> B.S
@@ -51,6 +53,15 @@ ActStep(c, B, st) ==
        THEN [B EXCEPT !.S = r.S, !.clk = r.clk]
        ELSE [S |-> r.S, clk |-> r.clk, mon |-> TRUE, has |-> TRUE,
              trace |-> (IF B.mon THEN B.trace ELSE <<>>) \o r.steps]
+
+(* the library scenario that "I reproduce" refers to: its given/when steps, in order *)
+Lib == << [kind |-> "send", a |-> 1, b |-> 0, n |-> 0], [kind |-> "wait", a |-> 1, b |-> 0, n |-> 0],
+          [kind |-> "send", a |-> 2, b |-> 7, n |-> 0] >>
+
+ActStep(c, B, st) ==
+  IF st.kind = "reproduce"
+    THEN FoldLeft(LAMBDA acc, ls : ActStep1(c, acc, [kw |-> st.kw] @@ ls), B, Lib)
+    ELSE ActStep1(c, B, st)
 
 (* documented meaning of a then step *)
 Truth(c, B, st) ==
